@@ -86,6 +86,13 @@ pub fn check_a(v: &RVal, rec: &mut Rec) -> Verdict {
         rec.nontrivial(key_of(&text));
     }
     rec.sample(|| format!("A: {:?}", trunc(&text, 200)));
+    // what goes over the wire is what a slow writer (a socket, a pipe) ends up holding
+    {
+        let r = zinc_encode_short_writes(&hv, &text);
+        if r.is_fail() {
+            return prefix_sig("C04:A", r, &shape(v));
+        }
+    }
     match rz::read(&text) {
         Ok(back) => diff_verdict_strict_zero("C04:A", v, &back, &text, rec),
         Err(e) => Verdict::fail(
